@@ -445,7 +445,8 @@ class PopulationBalanceModel:
                 change = True
                 newIndices = None
             elif checkDissolution and self.PSDbounds[-1] > 10*self.PSDbounds[0]:
-                if any(self.PSD > 1) and np.amax(self.PSDsize[self.PSD > 1]) < self.PSDsize[int(self.minBins/2)]:
+                #The grid can hold fewer size classes than minBins (bins is not checked against minBins), so stay inside it
+                if any(self.PSD > 1) and np.amax(self.PSDsize[self.PSD > 1]) < self.PSDsize[min(int(self.minBins/2), self.bins-1)]:
                     #print('splitting bins')
                     self.changeSizeClasses(self.PSDbounds[0], np.amax(self.PSDbounds[1:][self.PSD > 1]), self.maxBins)
                     change = True
